@@ -4,6 +4,7 @@ import (
 	"container/list"
 	"math/big"
 	"reflect"
+	"strings"
 	"time"
 
 	"github.com/google/uuid"
@@ -220,6 +221,39 @@ type Nested struct {
 	T  Tagged
 	S  []Scalars
 	M  map[string][]map[int]string
+}
+
+// concrete error types for the last result of a published function: everything that IMPLEMENTS error is the
+// call's error slot (rpc/core/method.go makeMethod), not only the interface type `error`
+type QuotaError struct{ Msg string }
+
+func (e *QuotaError) Error() string { return e.Msg }
+
+type ErrList []string
+
+func (e ErrList) Error() string { return strings.Join([]string(e), "") }
+
+type CodeErr string
+
+func (e CodeErr) Error() string { return string(e) }
+
+var errTypes = map[string]reflect.Type{
+	"ptrstruct": reflect.TypeOf((*QuotaError)(nil)),
+	"slice":     reflect.TypeOf(ErrList(nil)),
+	"string":    reflect.TypeOf(CodeErr("")),
+}
+
+// errValue: a non-nil error of the given concrete type with the given message
+func errValue(kind, msg string) reflect.Value {
+	switch kind {
+	case "ptrstruct":
+		return reflect.ValueOf(&QuotaError{Msg: msg})
+	case "slice":
+		return reflect.ValueOf(ErrList{msg})
+	case "string":
+		return reflect.ValueOf(CodeErr(msg))
+	}
+	return reflect.Value{}
 }
 
 var registry = map[string]reflect.Type{}
